@@ -171,3 +171,77 @@ def dropped_results_rule(ctx, R, callee_pat, allow, crates):
             else:
                 ctx.bad(R, f"discarded:{root.id}<-{t['f'].rsplit('::', 1)[-1]}", t["s"],
                         f"`{root.id}` discards the result of `{t['f']}`: a failure is silently swallowed where the caller is told the operation succeeded")
+
+
+def full_scan_rule(ctx, R, fids, what):
+    """exhaustive scan: every loop in the listed functions (closures included) is left only when its iterator is exhausted
+    (`for` over an iterator / `while let Some(..) = it.next()`): no break / return out of the loop body, so every element is visited"""
+    n = 0
+    for fid in fids:
+        b = ctx.body(R, fid)
+        if not b:
+            continue
+        for fb in ctx.w.family(fid):
+            for comp in sorted(loops(fb), key=lambda c: min(c)):
+                ex = loop_exits(fb, comp)
+                if not any(is_exhaustion_exit(fb, u) for u, v in ex):
+                    continue        # not an iterator-driven loop (e.g. a `loop { .. if done { break } }` fixpoint)
+                n += 1
+                bad = [(u, v) for (u, v) in ex if not is_exhaustion_exit(fb, u)]
+                hdr = min(comp)
+                ctx.inst(R, f"scan:{fb.id}#{n}", not bad, short_span(fb.blocks[hdr]["term"].get("s", "")) or fb.span,
+                         f"loop ends only when its iterator is exhausted ({what})" if not bad else
+                         f"a loop in `{fb.id}` can be left early (exit from bb{bad[0][0]} at {fb.blocks[bad[0][0]]['term'].get('s', '')}) before every element was visited: {what}")
+    return n
+
+
+TRUNCATING = re.compile(r"Iterator::(take_while|take|skip|skip_while|step_by|nth)$")
+
+# exhaustive-scan loops, confirmed by reading: function -> why every element must be visited
+SCANS = {
+    "C03": ("C03-R8", {"turmoil::for_pairs": "partition / repair apply to every ordered pair of the two host sets"}),
+    "C04": ("C04-R7", {"turmoil::sim::Sim::crash": "every matching host is crashed",
+                       "turmoil::sim::Sim::run_with_hosts": "every selected host is entered",
+                       "turmoil_io_uring::host::IoUringHostState::crash": "every pending operation of the crashed host is dropped"}),
+    "C05": ("C05-R6", {"turmoil::top::Topology::tick_by": "every link's clock is advanced on every step"}),
+    "C06": ("C06-R8", {"turmoil_net::kernel::tcp::check_retx": "every connection's retransmission timer is examined",
+                       "turmoil_net::kernel::tcp::segment_all": "every connection with queued data is segmented",
+                       "turmoil_net::kernel::Kernel::egress": "every queued packet leaves the kernel",
+                       "turmoil_net::fabric::Fabric::egress_all": "every host's kernel is drained each tick"}),
+    "C07": ("C07-R8", {"turmoil_fs::Fs::apply_torn_writes": "every pending write is considered for tearing",
+                       "turmoil_fs::Fs::sync_dir": "every pending record of the directory is considered",
+                       "turmoil_fs::Fs::sync_file": "every pending record of the file is considered",
+                       "turmoil_fs::Fs::sync_file_data": "every pending data record of the file is considered"}),
+    "C08": ("C08-R10", {"turmoil::for_pairs": "hold / release apply to every ordered pair of the two host sets",
+                        "turmoil::top::Link::hold": "every queued message is put on hold",
+                        "turmoil::top::Link::release": "every held message is released",
+                        "turmoil::top::Link::process_deliverables": "every due message is moved to the deliverable queue, whatever precedes it",
+                        "turmoil::top::LinkIter::deliver_all": "every held message of the link is delivered",
+                        "turmoil::top::Link::deliver_messages": "every deliverable message is handed to its host",
+                        "turmoil::top::Topology::deliver_messages": "every link delivers on every step"}),
+    "C09": ("C09-R9", {"turmoil::net::udp::MulticastGroups::leave_all": "a dropped socket leaves every group it joined"}),
+    "C13": ("C13-R8", {"turmoil_net::kernel::tcp::on_close": "every queued connection of a closing listener is reset",
+                       "turmoil_net::kernel::tcp::reap_closed": "every closed connection is reclaimed",
+                       "turmoil_net::kernel::socket::wake_all": "every waiter is woken"}),
+    "C14": ("C14-R5", {"turmoil::top::Link::process_deliverables": "every message whose delivery time has come is delivered this tick",
+                       "turmoil::top::Topology::tick_by": "every link is ticked"}),
+    "C18": ("C18-R8", {"turmoil_io_uring::submit::schedule_pending": "every submitted entry is scheduled",
+                       "turmoil_io_uring::host::IoUringHostState::crash": "every pending operation is cancelled by a crash"}),
+}
+
+
+def scan_rule(ctx, prop):
+    R, table = SCANS[prop]
+    ctx.rule(R, "exhaustive scans: each loop of " + ", ".join(f.rsplit("::", 2)[-2] + "::" + f.rsplit("::", 1)[-1] for f in table) +
+                " is left only when its iterator is exhausted (no break / return out of the body) and the iterators are not truncated "
+                "(take / skip / take_while / step_by / nth)")
+    for fid, why in table.items():
+        if fid.startswith(("turmoil_fs", "turmoil_io_uring")) and ctx.config not in ("all", "fs", "fs_iou"):
+            continue
+        b = ctx.body(R, fid)
+        if not b:
+            continue
+        full_scan_rule(ctx, R, [fid], why)
+        tr = sorted({t["f"].rsplit("::", 1)[1] for fb in ctx.w.family(fid) for bb, t in fb.calls(TRUNCATING)})
+        ctx.inst(R, f"untruncated:{fid}", not tr, b.span, "no truncating iterator adaptor" if not tr else
+                 f"`{fid}` truncates its iteration with {tr}: {why}")
